@@ -83,6 +83,21 @@ fn registry(prop: &str) -> Option<(CheckSpec, RunFn, Cands)> {
             };
             Some((s, f, exec::shrink_candidates))
         }
+        "C35" => {
+            let mut s = base("C35", "one run = one seeded world (1-4 real NodeStates behind real hyper HTTP/1 framing and the real http_client through the network seam, per-node load outcome: loaded / loads later / load error) driven by 18 seeded events: discovery ticks, real /healthz probe rounds, late loads, and client statements POSTed to /sql in each of arrow/json/csv with mode auto|1|0, a third of them with a fault (refuse, HTTP 500/503/400, truncation, reset, stall until the 600 s fragment timeout on the paused clock) on a peer's /fragment connection; the decision model (loaded? members up? mode? plan_distributed ok?) predicts 503 / local with reason / distributed-or-error; the three bodies must describe the same rows; distinct = distinct (mode, loaded, members, status, fired faults, family, statement)", 200, 12000);
+            s.level = "exploration";
+            s.real = &["NodeState", "route / sql / fragment handlers", "execute_statement decision", "hyper http1 server framing", "http_client", "HttpTransport", "membership resolve + /healthz probes", "coordinator", "arrow/json/csv encoders"];
+            s.stub = &["accept loop, listener and drain are bypassed (serve_stream hands a pipe to the real connection handler)", "the network is a per-connection link task over in-memory pipes"];
+            s.expected_probes = &["not_ready_503", "distributed_answer", "local_answer", "late_load", "json_roundtrip", "csv_roundtrip"];
+            Some((s, cluster::wire::run_c35, cluster::runs::shrink_candidates))
+        }
+        "C34" => {
+            let mut s = base("C34", "one run = one seeded world (1-3 real NodeStates, some not loaded, membership resolved/probed to a seeded degree); for 15 statements (8 generated of every family plus an empty result, a one-row aggregate, a >4096-row join, unknown column, unknown table, a syntax error and an unsupported aggregate) and a seeded mode, GetFlightInfo+DoGet are called on the real Flight service in-process and POST /sql?format=arrow goes through real hyper framing, with no event in between; schema names/types, canonical rows, trailer.rows, trailer.distributed vs x-qe-distributed and skipped-reason presence must agree, error classes must correspond; eight malformed / oversized / wrong-version / unknown-mode tickets must be refused with InvalidArgument; distinct = distinct (mode, loaded, status, size class, statement)", 200, 12000);
+            s.real = &["QeFlightService (get_flight_info, do_get, ticket parsing, encode_flight_stream)", "execute_statement", "/sql handler behind hyper http1", "http_client", "arrow_flight FlightDataDecoder on the client side"];
+            s.stub = &["tonic HTTP/2 transport is not exercised: service methods are called in-process", "accept loop bypassed (serve_stream)"];
+            s.expected_probes = &["result_over_4096_rows", "empty_result", "error_unavailable", "error_bad-request"];
+            Some((s, cluster::wire::run_c34, cluster::runs::shrink_candidates))
+        }
         "C16" | "C41" => {
             let c16 = prop == "C16";
             let s = CheckSpec {
